@@ -23,6 +23,14 @@
 (*               such names (env0) to None, a falsy scalar, a recorder object, or not at all.*)
 (*               Run with the deviation flag comp-leak-on-raise (Skels[sk].fl) the theorem   *)
 (*               must be VIOLATED: it separates the machine from its leaking variant.        *)
+(*   HeapExpect  (Round 4) heap skeletons (Skels[sk].expect # <<>>): plain lists / dicts reached  *)
+(*               through two access paths (x and z: the same object, or a copy), changed by   *)
+(*               subscript / slice stores, del, += and by unpacking targets that store into   *)
+(*               the object being unpacked.  After every completed run without a raise the    *)
+(*               names have exactly the values CPython leaves behind when the skeleton is     *)
+(*               executed with symbolic leaves (c01.heap_expect): "leaf n" = the object the   *)
+(*               n-th tracer leaf returned in THIS run.                                        *)
+(*   HeapClosed  every reference in the final bindings / heap points to an allocated object   *)
 (*   Witness_*   (expected to be VIOLATED) non-vacuity: raises in the middle, short-circuits, *)
 (*               a shadowing loop variable is read inside, a raise while it is shadowed      *)
 EXTENDS PyExprCore
@@ -39,9 +47,16 @@ FlagsOf(s) == {Skels[s].fl[j] : j \in 1..Len(Skels[s].fl)}
 ScopedOf(s) == {Skels[s].scoped[j] : j \in 1..Len(Skels[s].scoped)}
 Run(s, t) == Exec(Skels[s].body, 1, St0(FlagsOf(s), Opts0, ""), t, Skels[s].env0)
 \* senv: the final bindings of the scoped names; xval: the final value of x (witnesses only)
-Summ(s, r, t) == [ok |-> r.st.ok, nm |-> r.st.nm, want |-> r.st.want, x |-> r.x, complete |-> r.st.ok /\ r.st.l = Len(t) + 1,
-                  senv |-> [m \in ScopedOf(s) \cap DOMAIN r.env |-> r.env[m]],
-                  xval |-> IF "x" \in DOMAIN r.env THEN r.env["x"] ELSE NoneV]
+ExpNames(s) == {Skels[s].expect[j].name : j \in 1..Len(Skels[s].expect)}
+RECURSIVE Refs(_)
+Refs(v) == CASE v.k = "ref" -> {v.a}
+             [] v.k \in {"seq", "slice"} -> UNION {Refs(v.e[j]) : j \in 1..Len(v.e)}
+             [] v.k = "dict" -> UNION {Refs(v.ks[j]) : j \in 1..Len(v.ks)} \cup UNION {Refs(v.vs[j]) : j \in 1..Len(v.vs)}
+             [] OTHER -> {}
+Closed(r) == (UNION {Refs(r.env[m]) : m \in DOMAIN r.env} \cup UNION {Refs(r.st.h[a]) : a \in 1..Len(r.st.h)}) \subseteq 1..Len(r.st.h)
+Summ(s, r, t) == [fenv |-> [m \in ExpNames(s) \cap DOMAIN r.env |-> Reify(r.st.h, r.env[m])], hok |-> Closed(r), ok |-> r.st.ok, nm |-> r.st.nm, want |-> r.st.want, x |-> r.x, complete |-> r.st.ok /\ r.st.l = Len(t) + 1,
+                  senv |-> [m \in ScopedOf(s) \cap DOMAIN r.env |-> Reify(r.st.h, r.env[m])],
+                  xval |-> IF "x" \in DOMAIN r.env THEN Reify(r.st.h, r.env["x"]) ELSE NoneV]
 
 NewV(b) == [k |-> "v", id |-> 100 + Len(tr), b |-> b]
 Ev(w, r, x) == [e |-> w.e, op |-> w.op, n |-> w.n, xs |-> w.xs, names |-> w.names, r |-> r, x |-> x]
@@ -94,7 +109,19 @@ ScopeRestored == res.complete => \A m \in ScopedOf(sk) :
                    /\ (m \in DOMAIN res.senv) = (m \in DOMAIN Env0)
                    /\ (m \in DOMAIN Env0 => res.senv[m] = Env0[m])
 
-Theorems == NoStuck /\ AtMostOnce /\ InOrder /\ InOrderLoop /\ RaiseLast /\ NoSpontaneous /\ ScopeRestored
+\* plain mutable containers: the final values are those of CPython's own run of the skeleton
+LeafVal(n) == tr[CHOOSE i \in 1..Len(tr) : tr[i].e = "t" /\ tr[i].n = n].r
+RECURSIVE ExpVal(_)
+ExpVal(e) == CASE e.k = "leaf" -> LeafVal(e.n)
+               [] e.k = "seq" -> SeqV(e.t, [j \in 1..Len(e.e) |-> ExpVal(e.e[j])])
+               [] e.k = "dict" -> [k |-> "dict", ks |-> [j \in 1..Len(e.ks) |-> ExpVal(e.ks[j])], vs |-> [j \in 1..Len(e.vs) |-> ExpVal(e.vs[j])]]
+               [] OTHER -> e.v
+Clean == res.complete /\ res.x = "" /\ ~Raised
+HeapExpect == Clean => \A j \in 1..Len(Skels[sk].expect) :
+                 LET e == Skels[sk].expect[j] IN e.name \in DOMAIN res.fenv /\ res.fenv[e.name] = ExpVal(e.val)
+HeapClosed == res.hok
+
+Theorems == NoStuck /\ AtMostOnce /\ InOrder /\ InOrderLoop /\ RaiseLast /\ NoSpontaneous /\ ScopeRestored /\ HeapExpect /\ HeapClosed
 
 \* ------------------------------------------------------------------ witnesses (must be violated)
 NLeaves == Len(Skels[sk].leaves)
@@ -110,19 +137,33 @@ Witness_NoShadowedRead == ~(res.complete /\ res.x = "" /\ Shadowing /\ res.xval.
                             /\ \E j \in 1..Len(res.xval.e) : res.xval.e[j] \in DeliveredVals)
 Witness_NoRaiseWhileShadowed == ~(res.complete /\ res.x = "Err" /\ Shadowing /\ Delivered > 0)
 
+\* heap: an unpacking target received an item that the statement's own stores have meanwhile overwritten in the object;
+\* a store through x is seen through z (the same object) - and not seen when z is a copy
+HeapTag == Skels[sk].tag
+ItemsOfV(v) == IF v.k = "seq" THEN {v.e[j] : j \in 1..Len(v.e)} ELSE IF v.k = "dict" THEN {v.vs[j] : j \in 1..Len(v.vs)} ELSE {}
+Witness_NoSnapshot == ~(HeapTag = "snap" /\ Clean /\ "x" \in DOMAIN res.fenv
+                        /\ \E m \in DOMAIN res.fenv \ {"x", "z"} : res.fenv[m].k = "v" /\ res.fenv[m] \notin ItemsOfV(res.fenv["x"]))
+Witness_NoAliasStore == ~(HeapTag = "alias" /\ Clean /\ {"x", "z"} \subseteq DOMAIN res.fenv /\ res.fenv["x"] = res.fenv["z"]
+                          /\ LeafVal(NLeaves) \in ItemsOfV(res.fenv["z"]))
+Witness_NoCopyKeeps == ~(HeapTag = "copy" /\ Clean /\ {"x", "z"} \subseteq DOMAIN res.fenv /\ res.fenv["x"] # res.fenv["z"])
+
 \* All witnesses in ONE run (one worker): the invariant fails as soon as every witness condition has been observed
 \* in some reachable state; register 3 collects the names seen so far, each is announced by an INFO line.  The
 \* skeleton file of this run also holds the scope skeletons with fl = {comp-leak-on-raise}: on those the witness is
 \* a violation of the theorem ScopeRestored (the theorem separates the machine from its leaking variant).
 ASSUME TLCSet(3, {})
 Plain == FlagsOf(sk) = {}
-WitnessNames == {"mid-raise", "short-circuit", "loop-twice", "shadowed-read", "raise-while-shadowed", "leak-violates-ScopeRestored"}
+WitnessNames == {"mid-raise", "short-circuit", "loop-twice", "shadowed-read", "raise-while-shadowed", "leak-violates-ScopeRestored",
+                 "snapshot-not-live", "alias-sees-store", "copy-keeps"}
 WitnessNow == {w \in WitnessNames :
                  CASE w = "mid-raise" -> Plain /\ ~Witness_NoMidRaise
                    [] w = "short-circuit" -> Plain /\ ~Witness_NoShortCircuit
                    [] w = "loop-twice" -> Plain /\ ~Witness_NoLoopTwice
                    [] w = "shadowed-read" -> Plain /\ ~Witness_NoShadowedRead
                    [] w = "raise-while-shadowed" -> Plain /\ ~Witness_NoRaiseWhileShadowed
+                   [] w = "snapshot-not-live" -> Plain /\ ~Witness_NoSnapshot
+                   [] w = "alias-sees-store" -> Plain /\ ~Witness_NoAliasStore
+                   [] w = "copy-keeps" -> Plain /\ ~Witness_NoCopyKeeps
                    [] OTHER -> ~Plain /\ ~ScopeRestored}
 Witness_All == LET new == WitnessNow \ TLCGet(3) IN
                IF new = {} THEN TRUE
